@@ -388,3 +388,17 @@ packet optionsBlock {
     string Text,
 }
 """
+
+
+def bad_option_programs():
+    """every option with every value that is a word of the DSL but not a documented value of THAT option: (text, line of the option)"""
+    types = ["i8", "i16", "i32", "i64", "f32", "f64", "char", "string", "uint16", "int32"]
+    table = {"StringPrefixLenType": types + ["true", "'0'", "16"], "ArrayPrefixLenType": types + ["false", "' '", "2"],
+             "LittleEndian": ["u8", "0", "1", "'0'", "string"], "FixedStringPadFromLeft": ["u16", "0", "' '", "char[]"],
+             "FixedStringPadChar": ["u8", "true", "0", "string"]}
+    out = []
+    for k, vals in table.items():
+        for v in vals:
+            out.append(("options {\n    LittleEndian = %s;\n    %s = %s;\n}\n\nroot packet P {\n    char[4] a,\n    repeat u8 b,\n    string c,\n}\n"
+                        % ("true", k, v) if k != "LittleEndian" else "options {\n    ArrayPrefixLenType = u8;\n    %s = %s;\n}\n\nroot packet P {\n    char[4] a,\n}\n" % (k, v), 3))
+    return out
